@@ -123,6 +123,7 @@ def source_tables():
                         if mm:
                             fs.append(mm.group(1))
                     structs.setdefault(m.group(1), fs)
+                    structs[os.path.relpath(os.path.join(root, fn), REPO) + "::" + m.group(1)] = fs     # same name in two modules: ask by file
     enums.setdefault("TrySendError", ["Full", "Closed"])       # tokio::sync::mpsc::error::TrySendError
     _src_tables.update(consts=consts, enums=enums, structs=structs)
     return _src_tables
